@@ -10,7 +10,7 @@ DISPATCH = {
     "C15": "check_agent", "C16": "check_agent", "C19": "check_daemon",
     "C11": "check_rpsl", "C17": "check_rpsl",
     "C06": "check_framing", "C07": "check_framing",
-    "C08": "check_wire", "C09": "check_wire", "C12": "check_wire",
+    "C08": "check_wire", "C09": "check_wire", "C12": "check_wire", "C13": "check_wire", "C10": "check_wire",
 }
 
 def main():
